@@ -631,6 +631,14 @@ Definition excl_decl_clash (S : schema) (d : document) : bool :=
   | _ => false
   end.
 
+(** the same of the generator of the current tree, which renames clashing enum types and constants:
+    what is left are clashes that involve a [sel<T><n>] helper type *)
+Definition excl_decl_clash_s (S : schema) (d : document) : bool :=
+  match generate_raw_s S (doc_valid S d) d with
+  | GOk p => negb (decl_names_ok p && program_syntax_ok p && forallb (fun dfn => idents_ok (td_type dfn)) (p_defs p))
+  | _ => false
+  end.
+
 (** A condition on the NAMES of the schema and the document only (no generator run) that is meant
     to imply [excl_decl_clash S d = false]; it is conservative (it looks at all enums and all
     composite types of the schema, used or not).  The implication
